@@ -332,7 +332,33 @@ func (g *gen) genStruct(c *ctx, name string, depth int, nFields int, usedNames m
 
 // ---------------------------------------------------------------------------------------------------------------------
 
-func (s *gStruct) goDecls(sb *strings.Builder, tagKey string) {
+// canonTag: the same tag with every item key in its snake_case spelling (the twin type of the C10 judge)
+func canonTag(tag string) string {
+	items := strings.Split(tag, ";")
+	for i, it := range items {
+		k, v, has := strings.Cut(it, ":")
+		var kb []byte
+		for j := 0; j < len(k); j++ {
+			if k[j] >= 'A' && k[j] <= 'Z' {
+				kb = append(kb, '_', k[j]-'A'+'a')
+			} else {
+				kb = append(kb, k[j])
+			}
+		}
+		if has {
+			items[i] = string(kb) + ":" + v
+		} else {
+			items[i] = string(kb)
+		}
+	}
+	return strings.Join(items, ";")
+}
+
+func (s *gStruct) goDecls(sb *strings.Builder, tagKey string) { s.goDeclsX(sb, tagKey, "", "") }
+
+// goDeclsX: with a non-empty `suffix` the twin declaration: type names carry the suffix, tags are canonical, and the
+// top-level type answers `tableName` from TableName() (its own name would give another table name)
+func (s *gStruct) goDeclsX(sb *strings.Builder, tagKey, suffix, tableName string) {
 	for _, f := range s.fields {
 		if f.goType == "" {
 			continue
@@ -344,20 +370,29 @@ func (s *gStruct) goDecls(sb *strings.Builder, tagKey string) {
 	// nested types first
 	for _, f := range s.fields {
 		if inner := nestedOf(f); inner != nil {
-			inner.goDecls(sb, tagKey)
+			inner.goDeclsX(sb, tagKey, suffix, "")
 		}
 	}
-	fmt.Fprintf(sb, "type %s struct {\n", s.name)
+	fmt.Fprintf(sb, "type %s%s struct {\n", s.name, suffix)
 	for _, f := range s.fields {
-		if f.tag != "" {
-			fmt.Fprintf(sb, "\t%s %s `%s:%q`\n", f.goName, f.goType, tagKey, f.tag)
+		goType, tag := f.goType, f.tag
+		if suffix != "" {
+			tag = canonTag(tag)
+			if inner := nestedOf(f); inner != nil {
+				goType = strings.Replace(goType, inner.name, inner.name+suffix, 1)
+			}
+		}
+		if tag != "" {
+			fmt.Fprintf(sb, "\t%s %s `%s:%q`\n", f.goName, goType, tagKey, tag)
 		} else {
-			fmt.Fprintf(sb, "\t%s %s\n", f.goName, f.goType)
+			fmt.Fprintf(sb, "\t%s %s\n", f.goName, goType)
 		}
 	}
 	sb.WriteString("}\n\n")
-	if s.tableName != "" {
-		fmt.Fprintf(sb, "func (%s) TableName() string { return %q }\n\n", s.name, s.tableName)
+	if suffix != "" && tableName != "" {
+		fmt.Fprintf(sb, "func (%s%s) TableName() string { return %q }\n\n", s.name, suffix, tableName)
+	} else if s.tableName != "" {
+		fmt.Fprintf(sb, "func (%s%s) TableName() string { return %q }\n\n", s.name, suffix, s.tableName)
 	}
 }
 
@@ -366,19 +401,21 @@ var nestedTypes = map[*gField]*gStruct{}
 
 func nestedOf(f *gField) *gStruct { return nestedTypes[f] }
 
-func (s *gStruct) goValue() string {
+func (s *gStruct) goValue() string { return s.goValueX("") }
+
+func (s *gStruct) goValueX(suffix string) string {
 	var inits []string
 	for _, f := range s.fields {
 		if f.init != "" {
 			inits = append(inits, f.goName+": "+f.init)
 		}
 		if inner := nestedOf(f); inner != nil {
-			if v := inner.goValue(); v != inner.name+"{}" {
+			if v := inner.goValueX(suffix); v != inner.name+suffix+"{}" {
 				inits = append(inits, f.goName+": "+v)
 			}
 		}
 	}
-	return s.name + "{" + strings.Join(inits, ", ") + "}"
+	return s.name + suffix + "{" + strings.Join(inits, ", ") + "}"
 }
 
 func (s *gStruct) absFields() string {
@@ -526,7 +563,14 @@ func suiteStructGen(c *ctx) {
 			extra = L(L("childFirst", b2s(s.childFirst)), L("decl", q(s.parent.name), q(s.parent.tableName), s.parent.absFields()))
 		}
 		expect := L("expect", q(wantTable), L(cols...), L(idx...), L(ren...), L(fks...))
-		regs = append(regs, fmt.Sprintf("\t{id: %q, cfg: %s, obj: %s, decl: %q, expect: %q, others: %s, childFirst: %v, extra: %q},", fmt.Sprintf("st%d", i), cfg, s.goValue(), decl, expect, others, s.childFirst, extra))
+		// the twin with canonical (snake_case) tag keys: C10 compares the two DDL texts
+		// (not for a model with a foreign_key tag: its field of the parent's type would name the parent's twin)
+		objSnake := "nil"
+		if s.parent == nil {
+			s.goDeclsX(&sb, tagKey, "Sn", wantTable)
+			objSnake = s.goValueX("Sn")
+		}
+		regs = append(regs, fmt.Sprintf("\t{id: %q, cfg: %s, obj: %s, objSnake: %s, decl: %q, expect: %q, others: %s, childFirst: %v, extra: %q},", fmt.Sprintf("st%d", i), cfg, s.goValue(), objSnake, decl, expect, others, s.childFirst, extra))
 		c.count("dialect_" + dialect)
 		c.nontrivial(decl)
 	}
